@@ -11,7 +11,7 @@ import io, importlib
 from .. import mutate, refsem
 from ..core import short_exc
 
-BASE = [("f1_expr", 25), ("f2_portrefs", 150), ("f3_noconn", 40), ("f4_bundles", 3), ("f5_arrays", 9), ("f6_pairs", 6), ("f7_hier", 120)]
+BASE = [("f1_expr", 50), ("f2_portrefs", 300), ("f3_noconn", 80), ("f4_bundles", 6), ("f5_arrays", 18), ("f6_pairs", 12), ("f7_hier", 240), ("f9_multifeed", 60)]
 
 
 def _base_one(item):
@@ -84,6 +84,12 @@ def _special(item):
             leaf = h.Module()  # never named
             leaf.p = h.Port()
             top = leaf
+        elif kind == "clash_parent_child":
+            a = h.Module(name="Same")
+            a.p = h.Port()
+            top = h.Module(name="Same")
+            top.p = h.Port()
+            top.ia = a(p=top.p)
         elif kind == "clash":
             a = h.Module(name="Same")
             a.p = h.Port()
@@ -119,7 +125,7 @@ def run(ctx):
         mod = importlib.import_module(f"hv.families.{fname}")
         its = mod.items("quick")
         if not ctx.quick:
-            stride = max(1, stride // 4)
+            stride = max(1, stride // 8)
         off = ctx.seed % stride
         sel = its[off::stride]
         ctx.fam(fname, base_designs_enumerated=len(sel))
@@ -137,13 +143,13 @@ def run(ctx):
             ctx.outcome(cls + ":" + ("returned" if bad else "raised"))
             if bad:
                 ctx.violation(dict(fault=cls, reason=reason, family=fname, entries=",".join(sorted(bad))), dict(family=fam, fault=cls, site=site, design=d2), f"{bad} returned for a design that is ill-formed ({reason}) at {site}")
-    specials = [(k, n, depth, e) for k, ns in (("cycle", (1, 2, 3)), ("anon", (0,)), ("clash", (0,))) for n in ns for depth in (0, 1, 2) for e in ("elaborate", "to_proto", "netlist")]
+    specials = [(k, n, depth, e) for k, ns in (("cycle", (1, 2, 3)), ("anon", (0,)), ("clash", (0,)), ("clash_parent_child", (0,))) for n in ns for depth in (0, 1, 2) for e in ("elaborate", "to_proto", "netlist")]
     for sp in specials:
         r = _special(sp)
         ctx.count(states=1, transitions=2, traces_validated_against_impl=1)
         ctx.fam("special:" + sp[0], scenarios=1)
         ctx.outcome(sp[0] + ":" + r)
-        if r == "returned" and not (sp[0] == "clash" and sp[3] == "elaborate") and not (sp[0] == "anon" and False):
+        if r == "returned" and not (sp[0].startswith("clash") and sp[3] == "elaborate") and not (sp[0] == "anon" and False):
             ctx.violation(dict(fault=sp[0], reason=sp[0], family="special", entries=sp[3]), dict(special=list(sp)), f"{sp[3]} returned for {sp[0]} (n={sp[1]}, depth={sp[2]})")
     if items:
         fam, d = importlib.import_module(f"hv.families.{items[0][0]}").design(items[0][1])
